@@ -44,6 +44,7 @@ type Contract struct {
 	Borrows  []string
 	CallAssume map[string][]Clause
 	CallRequires map[string][]Clause // obligations of this function at its calls to the named callee
+	UpdateRequires map[string][]Clause // obligations at its updates of the map held by the named field
 	CallGhost  map[string][]GhostSet
 	AtCall     map[string][]GhostSet
 	ExitGhost []GhostSet // ghost assignments performed at every return, before the postconditions are checked
@@ -198,7 +199,7 @@ func (cs *ContractSet) loadContractFile(path, pkg string) error {
 		}
 		switch kw {
 		case "ghost", "pure", "ufunc", "const", "monotone", "atomic", "linear", "typeinv", "typestep", "lockhavoc", "recvhavoc", "func", "iface", "extern", "lemma", "axiom",
-			"arith", "requires", "ensures", "modifies", "loop", "inline", "trusted", "borrows", "opt", "package", "exitghost", "callassume", "callghost", "atcall", "callrequires":
+			"arith", "requires", "ensures", "modifies", "loop", "inline", "trusted", "borrows", "opt", "package", "exitghost", "callassume", "callghost", "atcall", "callrequires", "updaterequires":
 			if err := flush(); err != nil {
 				return err
 			}
@@ -328,6 +329,11 @@ func (cs *ContractSet) addClause(cur **Contract, pkg, kw, rest, where string) er
 		// ghost state that is only meaningful within one lock hold
 		for _, n := range strings.Split(rest, ",") {
 			if n = strings.TrimSpace(n); n != "" {
+				if strings.HasPrefix(n, "map:") {
+					// "map:T.f": the map held by field f of T is shared under T's
+					// lock; other goroutines may have changed it between two holds
+					n = "map:" + pkg + "::" + strings.TrimPrefix(n, "map:")
+				}
 				cs.LockHavoc = append(cs.LockHavoc, n)
 			}
 		}
@@ -510,6 +516,23 @@ func (cs *ContractSet) addClause(cur **Contract, pkg, kw, rest, where string) er
 				c.AtCall = map[string][]GhostSet{}
 			}
 			c.AtCall[f[0]] = append(c.AtCall[f[0]], GhostSet{Target: tgt, Val: val, Cond: SIdent{Name: "true"}, Src: body})
+		case "updaterequires":
+			// updaterequires <field> [label] <expr>: an OBLIGATION of this function
+			// at each of its assignments m[k] = v where m is the map held by the
+			// struct field <field>; written over its own parameters and locals and
+			// over argkey, argvalue
+			f := strings.Fields(rest)
+			if len(f) < 2 {
+				return fmt.Errorf("%s: malformed updaterequires", where)
+			}
+			if c.UpdateRequires == nil {
+				c.UpdateRequires = map[string][]Clause{}
+			}
+			cl, err := mkClause(strings.TrimSpace(strings.TrimPrefix(rest, f[0])), where, len(c.UpdateRequires[f[0]]), "updreq")
+			if err != nil {
+				return err
+			}
+			c.UpdateRequires[f[0]] = append(c.UpdateRequires[f[0]], cl)
 		case "callrequires":
 			// callrequires <callee> [label] <expr>: an OBLIGATION of this function at
 			// each of its calls to <callee>, written over its own parameters and
